@@ -88,6 +88,28 @@ def Canonical (d : D α) : Prop := keys d = (List.range d.length).map fun (i : N
 
 instance (d : D α) : Decidable (Canonical d) := by unfold Canonical; exact inferInstance
 
+/-! ### The pristine tree (before the repair `c13b`), kept only to document the repaired defect -/
+
+/-- Pristine `iter(irregular)`: the one-entry dictionaries were keyed by the *label*. -/
+def iterIrregOld (d : D α) : List (D α) := d.map fun p => [p]
+
+/-- Pristine `IrregularFunctionalData.__getitem__`: positions produced by a slice / array were
+used as *labels* (`argvals.get(obs)` → `None` → `TypeError` on a miss), an integer was a label
+(`KeyError` on a miss). -/
+def irregGetOld (d : D α) (ix : Index) : Except Err (D α) :=
+  match ix with
+  | .int i => match get? d i with
+    | some e => .ok [(i, e)]
+    | none => .error .keyError
+  | .slice a b c => match slicePos d.length a b c with
+    | none => .error .valueError
+    | some ps => match lookupAll d (ps.map fun (p : Nat) => (p : Int)) with
+      | some xs => .ok (ofList xs)
+      | none => .error .typeError
+  | .arr idx => match lookupAll d idx with
+    | some xs => .ok (ofList xs)
+    | none => .error .typeError
+
 /-! ### Components of a multivariate object -/
 
 /-- One component: dense / basis data (rows) or irregular data (labelled observations). -/
